@@ -152,9 +152,10 @@ def _index_in_range(recv: V, idx: V, p: Path, e: Event) -> bool:
         return True
     if isinstance(idx, Sym) and idx.origin and idx.origin[0] == "range":
         rng = idx.origin[1]
-        if isinstance(rng, Term) and any(isinstance(a, Term) and a.op == "len" and a.args[0].key() == recv.key()
-                                         for a in rng.args[-1:]):
-            return True
+        if isinstance(rng, Term) and rng.args:
+            upper = rng.args[-1] if len(rng.args) <= 2 else rng.args[1]
+            if _at_most_len(upper, recv):
+                return True
     # explicit guard:  not lt(idx, len(recv)) is False  i.e. idx < len(recv) holds, or `real_index >= len(value)` False
     ik, rk = idx.key(), recv.key()
     for fk, t, b in p.facts[:e.nfacts]:
@@ -166,6 +167,24 @@ def _index_in_range(recv: V, idx: V, p: Path, e: Event) -> bool:
     if isinstance(idx, Const) and isinstance(idx.value, int):
         for fk, t, b in p.facts[:e.nfacts]:
             if isinstance(t, Term) and t.op in ("lt", "eq") and f"len({rk})" in fk:
+                return True
+    return False
+
+
+def _at_most_len(upper: V, recv: V) -> bool:
+    """upper <= len(recv) by structure: len(recv), an index of recv, max(0, len(recv) - c), 0."""
+    rk = recv.key()
+    if isinstance(upper, Term) and upper.op == "len" and upper.args[0].key() == rk:
+        return True
+    if isinstance(upper, Const) and upper.value == 0:
+        return True
+    if isinstance(upper, Sym) and upper.origin and upper.origin[0] == "index" and upper.origin[1].key() == rk:
+        return True
+    if isinstance(upper, Term) and upper.op == "max" and len(upper.args) == 2:
+        a, b = upper.args
+        for x, y in ((a, b), (b, a)):
+            if isinstance(x, Const) and x.value == 0 and isinstance(y, Term) and y.op == "bin" and y.args[0] == "-" \
+                    and isinstance(y.args[1], Term) and y.args[1].op == "len" and y.args[1].args[0].key() == rk:
                 return True
     return False
 
